@@ -129,12 +129,23 @@ func (n *Node) Execute(ctx context.Context) error {
 	if err != nil {
 		return err
 	}
+	capture := n.outputReader != nil && n.data.Step.Output != ""
+	var buf bytes.Buffer
+	drained := make(chan struct{})
+	if capture {
+		// Drain the pipe while the command runs: a pipe holds a limited
+		// amount of data, and a command that writes more than that would
+		// otherwise block forever.
+		go func() {
+			defer close(drained)
+			// TODO: Error handling
+			_, _ = io.Copy(&buf, n.outputReader)
+		}()
+	}
 	n.SetError(cmd.Run())
-	if n.outputReader != nil && n.data.Step.Output != "" {
+	if capture {
 		util.LogErr("close pipe writer", n.outputWriter.Close())
-		var buf bytes.Buffer
-		// TODO: Error handling
-		_, _ = io.Copy(&buf, n.outputReader)
+		<-drained
 		ret := strings.TrimSpace(buf.String())
 		_ = os.Setenv(n.data.Step.Output, ret)
 		n.data.Step.OutputVariables.Store(
